@@ -80,8 +80,8 @@ func (f *gofile) String() string {
 	return b.String()
 }
 
-// implementer finds a concrete type expression implementing the interface.
-func (r *Renderer) implementer(iface *Type) *Type {
+// Implementer finds a concrete type expression implementing the interface.
+func (r *Renderer) Implementer(iface *Type) *Type {
 	need := IfaceMethods(r.S, iface)
 	if len(need) == 0 {
 		return nil
@@ -139,7 +139,7 @@ func (f *gofile) mk(t *Type, tok string, constant bool, depth int) string {
 				if d.Pkg != f.pkg && !exported(fl.Name) {
 					continue
 				}
-				if IsInterface(r.S, ft) && r.implementer(ft) == nil {
+				if IsInterface(r.S, ft) && r.Implementer(ft) == nil {
 					continue
 				}
 				if constant && !r.constOK(fl.T) {
@@ -150,12 +150,9 @@ func (f *gofile) mk(t *Type, tok string, constant bool, depth int) string {
 			}
 			return f.ty(t) + "{" + strings.Join(parts, ", ") + "}"
 		case "iface":
-			c := r.implementer(t)
+			c := r.Implementer(t)
 			if c == nil {
-				if constant {
-					return tok
-				}
-				return fmt.Sprintf("%s(%s)", f.ty(t), tok)
+				return "*new(" + f.ty(t) + ")"
 			}
 			return f.mk(c, tok, constant, depth+1)
 		default: // def
@@ -210,7 +207,7 @@ func (f *gofile) mk(t *Type, tok string, constant bool, depth int) string {
 		}
 		return fmt.Sprintf("%s{%s: %s}", f.ty(t), t.Fields[0].Name, f.mk(t.Fields[0].T, tok, constant, depth+1))
 	case "ifacelit":
-		c := r.implementer(t)
+		c := r.Implementer(t)
 		if c == nil {
 			return tok
 		}
@@ -496,17 +493,28 @@ func (r *Renderer) Files() map[string]string {
 		// --- sets
 		f = r.newFile(pi, "")
 		n = 0
+		var jn, jv []string
 		for si := range s.Sets {
 			st := &s.Sets[si]
 			if st.Pkg != pi {
 				continue
 			}
 			n++
+			var rhs string
 			if st.AliasOf >= 0 {
-				f.p("var %s = %s\n\n", st.Name, f.refExpr(RSet(st.AliasOf)))
+				rhs = f.refExpr(RSet(st.AliasOf))
+			} else {
+				rhs = fmt.Sprintf("%s.NewSet(%s)", f.use(pkgWire), f.refList(st.Args))
+			}
+			if s.JointSets {
+				jn = append(jn, st.Name)
+				jv = append(jv, rhs)
 				continue
 			}
-			f.p("var %s = %s.NewSet(%s)\n\n", st.Name, f.use(pkgWire), f.refList(st.Args))
+			f.p("var %s = %s\n\n", st.Name, rhs)
+		}
+		if len(jn) > 0 {
+			f.p("var %s = %s\n\n", strings.Join(jn, ", "), strings.Join(jv, ",\n\t"))
 		}
 		if n > 0 {
 			out[path(pi, "sets.go")] = f.String()
@@ -592,7 +600,8 @@ func (r *Renderer) renderProvider(f *gofile, ii int) {
 	}
 	results := r.M.FuncResults(it)
 	f.p("func %s%s {\n", it.Name, sigString(f, params, it.Variadic, results, true))
-	if it.RawResults != nil {
+	out, hasCl, hasErr, bad := r.M.classifyResults(results)
+	if bad != "" {
 		var zs []string
 		for _, t := range results {
 			zs = append(zs, "*new("+f.ty(t)+")")
@@ -605,21 +614,21 @@ func (r *Renderer) renderProvider(f *gofile, ii int) {
 	}
 	tr := f.use(pkgTrace)
 	f.p("\tev := %s.Enter(%q%s)\n", tr, ItemID(ii), prefixEach(names))
-	f.p("\tif ev.Fail() {\n\t\tvar z %s\n\t\treturn z", f.ty(it.Out))
-	if it.Cleanup {
+	f.p("\tif ev.Fail() {\n\t\tvar z %s\n\t\treturn z", f.ty(out))
+	if hasCl {
 		f.p(", ev.Bogus()")
 	}
-	if it.Err {
+	if hasErr {
 		f.p(", ev.Err()")
 	}
 	f.p("\n\t}\n")
 	f.p("\ttok := ev.Tok()\n\t_ = tok\n")
-	f.p("\tvar r %s = %s\n", f.ty(it.Out), f.mk(it.Out, "tok", false, 0))
+	f.p("\tvar r %s = %s\n", f.ty(out), f.mk(out, "tok", false, 0))
 	f.p("\tev.Ret(r)\n\treturn r")
-	if it.Cleanup {
+	if hasCl {
 		f.p(", ev.Cleanup()")
 	}
-	if it.Err {
+	if hasErr {
 		f.p(", nil")
 	}
 	f.p("\n}\n\n")
